@@ -568,5 +568,26 @@ theorem c12_monitors_model {env : Env} {s s' : State} {now h : Int} {log : List 
     intro e he
     exact key e he
 
+
+/-! ## import: `epochs.InitGenesis` keeps a configured start time -/
+
+/-- a record with a configured start time keeps it through `InitGenesis` (only the informational height changes), however
+far in the past it lies — so `start_at_first_block_not_before` and `start_time_formula` speak about the *configured* start -/
+theorem initGenesis_keeps_start (now h : Int) (recs : List EpochInfo) (e : EpochInfo) (he : e ∈ recs)
+    (hs : e.start ≠ zeroTime) : { e with height := h } ∈ initGenesis now h recs := by
+  unfold initGenesis
+  refine List.mem_map.mpr ⟨e, he, ?_⟩
+  simp [hs]
+
+/-- a record whose start time is unset starts at the import block's time -/
+theorem initGenesis_unset_starts_now (now h : Int) (recs : List EpochInfo) (e : EpochInfo) (he : e ∈ recs)
+    (hs : e.start = zeroTime) : { e with start := now, height := h } ∈ initGenesis now h recs := by
+  unfold initGenesis
+  refine List.mem_map.mpr ⟨e, he, ?_⟩
+  simp [hs]
+
+example : initGenesis 500 7 [{ id := "day", start := 100, dur := 50, cur := 0, curStart := 0, started := false, height := 0 }] =
+    [{ id := "day", start := 100, dur := 50, cur := 0, curStart := 0, started := false, height := 7 }] := by decide
+
 end Epochs
 end CV
